@@ -144,24 +144,24 @@ async fn burst_case(rng: &mut Rng, n: usize, queue: u32, pipe: usize) -> (String
     }
   }
   if n as u32 > queue {
-    // overflow: the first `queue` frames were queued, the rest asked for the close. What arrives is a whole-batch
-    // prefix of those frames followed by the closing ERROR (or just the ERROR).
+    // overflow: frames were queued until the queue was full; each one that found it full was dropped and asked for the
+    // close. What arrives is whole frames in their order of submission (a subsequence: the writer may have made room
+    // again while the burst was still being submitted; how far it gets before the close request wins is not fixed by the
+    // property), followed by the closing ERROR and nothing else.
     let err = b"ERROR reason=OUTBOUND_QUEUE_FULL\n";
     let mut ok = false;
-    let mut acc: Vec<u8> = Vec::new();
-    let mut options: Vec<Vec<u8>> = vec![err.to_vec()];
-    for (i, fr) in expect_frames.iter().take(queue as usize).enumerate() {
-      acc.extend_from_slice(fr);
-      if (i + 1) % 128 == 0 || i + 1 == queue as usize {
-        let mut o = acc.clone();
-        o.extend_from_slice(err);
-        options.push(o);
+    if got.len() >= err.len() && got[got.len() - err.len()..] == err[..] {
+      let body = &got[..got.len() - err.len()];
+      let mut off = 0;
+      let mut i = 0;
+      while off < body.len() && i < expect_frames.len() {
+        let fr = &expect_frames[i];
+        if body.len() >= off + fr.len() && body[off..off + fr.len()] == fr[..] {
+          off += fr.len();
+        }
+        i += 1;
       }
-    }
-    for o in &options {
-      if *o == got {
-        ok = true;
-      }
+      ok = off == body.len();
     }
     if !ok {
       FAILS.with(|f| {
